@@ -457,3 +457,7 @@ Proof.
     apply Ok_inj in H. subst c. cbn [d_pmd2 d_pdl2]. split; apply Hsq.
   - apply Ok_inj in H. subst c. cbn [d_pmd2 d_pdl2]. rewrite H0. lra.
 Qed.
+
+Lemma dzs_mirror_once : forall (L : R) (z : list R),
+  @dzs NumR (map (fun x => L - x) (rev z)) = rev (@dzs NumR z) /\ Permutation (rev (@dzs NumR z)) (@dzs NumR z).
+Proof. intros. split; [apply dzs_mirror|apply bwd_steps_once]. Qed.
